@@ -49,6 +49,46 @@ try:
         mean_under_logpdf = float(jnp.sum(ks * jnp.exp(lp(ks, x))))
         emit({"confirmed": abs(emp - mean_under_logpdf) > 0.15, "tier": "native (TFP closures)", "input": "geometric_reinforce parameter x=0.3, 20000 keyed draws",
               "observed": {"mean_of_keyed_draws": emp}, "required": {"mean_under_the_estimators_logpdf": mean_under_logpdf}})
+    elif which == "mvd_phantom":
+        # REAL stack (compat shims only): a scalar flip_mvd site followed by a continuous site, jvp_estimate called six
+        # times WITHOUT seed.  The phantom evaluation f(not b, downstream draw) must be a fresh evaluation of the rest of
+        # the program each time (C11: "average - over all outcomes of their sites - to the exact derivative")
+        import _compat
+        _compat.install()
+        import importlib
+        A = importlib.import_module("genjax.adev")
+        seen = []
+        orig = A.FlipMVD.prim_jvp_estimate
+        def spy(self, dual_tree, konts):
+            kpure, kdual = konts
+            def kd(*a):
+                r = kdual(*a)
+                seen.append(("dual", bool(np.asarray(a[0].primal)), float(np.asarray(r.primal))))
+                return r
+            def kp(*a):
+                r = kpure(*a)
+                seen.append(("pure", bool(np.asarray(a[0])), float(np.asarray(r[0]))))
+                return r
+            return orig(self, dual_tree, (kp, kd))
+        A.FlipMVD.prim_jvp_estimate = spy
+        @A.expectation
+        def prog(p):
+            b = A.flip_mvd(p)
+            x = A.normal_reparam(0.0, 1.0)
+            return x + 0.0 * jnp.where(b, 1.0, 0.0)
+        calls = []
+        for i in range(6):
+            n0 = len(seen)
+            prog.jvp_estimate(A.Dual(jnp.array(0.4), jnp.array(1.0)))
+            calls.append(seen[n0:])
+        # per call: evaluation at the drawn b, and the phantom evaluation at (not b); the downstream value of the phantom
+        phantom = [[v for (_k, _b, v) in c][-1] for c in calls]
+        sampled = [[v for (_k, _b, v) in c][0] for c in calls]
+        frozen = len(set(round(v, 6) for v in phantom)) == 1
+        emit({"confirmed": frozen, "tier": "native (real ADEV stack through the JAX compatibility shims, unseeded)",
+              "input": "expectation(p -> b = flip_mvd(p); x = normal_reparam(0,1); return x), jvp_estimate(Dual(0.4, 1.0)) x 6",
+              "observed": {"downstream_value_in_the_phantom_evaluation_per_call": phantom, "downstream_value_at_the_sampled_b_per_call": sampled, "continuations_used": [[k for (k, _b, _v) in c] for c in calls][:2]},
+              "required": "six independent estimator calls evaluate the rest of the program afresh in the phantom term (distinct downstream draws)"})
     else:
         # real Expectation.estimate; the program transformation is replaced by jax.jvp (which C15 says it must equal)
         def _jvp_estimate(self, duals, kont):
